@@ -1117,6 +1117,14 @@ func scaleLong(g *tr.G, n int, which int) {
 	}
 	b.touch()
 	b.clear()
+	// used again after the long history has ended in an empty cache: a few entries, Gets of the older ones, an ordered drain
+	m := g.R.Range(4, 12)
+	lo = b.freshKeys(m)
+	b.add(macro{kind: 'p', ks: b.seq('a', lo, m, m), vs: vs})
+	b.add(macro{kind: 'g', ks: elist([]int{lo, lo + m/2, lo})})
+	b.add(macro{kind: 'r', ks: elist([]int{lo + 1})})
+	b.drainByPuts(vseq{7, 3, 1000})
+	b.clear()
 	b.tags["scale-long-history"] = true
 	b.emit(g, "long")
 }
@@ -1223,7 +1231,7 @@ func scaleHistory(g *tr.G, n int, drain int, left int) {
 			b.add(macro{kind: 'p', ks: elist([]int{b.freshKeys(1)}), vs: vseq{n - 1, 0, 1}})
 			b.add(macro{kind: 'l'})
 			b.add(macro{kind: 'p', ks: b.seq('a', b.freshKeys(2), 2, 2), vs: one})
-		} else if unit && left > 0 && round == 0 && n <= 1100 {
+		} else if unit && left > 0 && round == 0 && n <= 600 {
 			// what the drain left behind is older than everything put since: filling up evicts it first
 			room := int(b.limit) - b.n()
 			if m := b.afford(room + left); m > 0 {
@@ -1284,10 +1292,10 @@ func genHistoryLines(g *tr.G) {
 		}
 	} else {
 		off := r.Intn(5)
-		// 1024: every way to drain; oldest-first Removes leave the one or two most recently used entries (the
-		// largest stamps), newest-first Removes nothing, permuted Removes 0..2
+		// 1024: every way to drain; least-recently-used-first Removes leave the most recently used entry (the
+		// largest stamp), most-recently-used-first Removes nothing, permuted Removes 0..2
 		for d := 0; d < 5; d++ {
-			scaleHistory(g, 1024, d, []int{0, 1 + off%2, 0, off % 3, off % 2}[d])
+			scaleHistory(g, 1024, d, []int{0, 1, 0, (off + 2) % 3, off % 2}[d])
 		}
 		// 1500: by Remove to exactly zero, and by Clear or by eviction; 1024-1, 1024+1: one way each
 		scaleHistory(g, 1500, 1+off%3, 0)
@@ -1302,7 +1310,7 @@ func genHistoryLines(g *tr.G) {
 	for lo := 0; lo <= g.Scale(130, 600); lo += 10 {
 		scaleSweep(g, lo, lo+9)
 	}
-	for i := 0; i < g.Scale(8, 0); i++ {
+	for i := 0; i < g.Scale(5, 0); i++ {
 		n := r.Range(131, 600)
 		scaleSweep(g, n, n)
 	}
